@@ -570,8 +570,11 @@ fn check_server_responses(out: &mut Partial) {
                                 want.extend(brute(&rest_pool, &target).into_iter().take(20 - first.len()));
                                 if dd.len() != want.len().min(20) && dd.len() == got.len() && got.len() <= 20 {
                                     out.violation(format!("server-response/not-full/{kname}"), format!("{ctx}: the answer lists {} nodes although the tables hold {} distinct ones", got.len(), union.len()), replay.clone());
-                                } else if got != want && dd.len() == got.len() && got.len() <= 20 {
-                                    out.violation(format!("server-response/not-the-closest/{kname}"), format!("{ctx}: the answer is not the signed-peers table's closest followed by the main table's closest"), replay.clone());
+                                } else if got != want && got != brute(&union, &target) && dd.len() == got.len() && got.len() <= 20 {
+                                    // (either policy is an answer made of the closest known nodes: supporters of
+                                    // signed peers first and the main table's closest after them - what the code
+                                    // does - or the first 20 of the two tables taken together)
+                                    out.violation(format!("server-response/not-the-closest/{kname}"), format!("{ctx}: the answer is neither the signed-peers table's closest followed by the main table's closest, nor the closest of both tables together"), replay.clone());
                                 }
                             }
                             1 | 2 => {
